@@ -250,3 +250,85 @@ def stale_size_after_compaction(prog, fn):
             if uses:
                 yield v, c, uses[0]
                 break
+
+
+SLOT_VECTORS = {"node_lst_": "nodes", "face_lst_": "faces"}
+SLOT_GETTERS = {"get_node_lst": "nodes", "get_face_lst": "faces", "get_const_ref_node_lst": "nodes", "get_const_ref_face_lst": "faces"}
+SLOT_ELEMENT_GETTERS = {"get_node": "nodes", "get_const_ref_node": "nodes", "get_face": "faces", "get_const_ref_face": "faces"}
+LIVE_COUNTS = {"cell::get_nb_of_nodes": "nodes", "cell::get_nb_of_faces": "faces"}
+
+
+def slot_loops(prog, fn):
+    """Index loops over the slot vectors of a cell (node_lst_ / face_lst_ hold used and free slots; get_nb_of_nodes/faces is
+    size() minus the free slots). A loop that visits the slots [0, live count) misses the used elements stored behind a free
+    slot - correct only right after cell::rebase(). Yields (loop, kind, bound text, verdict, why) for every index loop whose
+    variable subscripts a slot vector; verdict 'bad' when the bound is the live count and no rebase precedes the loop."""
+    from .model import expand
+    if not isinstance(fn.get("body"), dict):
+        return
+    fi = prog.index(fn)
+    for l in walk(fn["body"]):
+        if l.get("k") != "ForStmt" or not isinstance(l.get("init"), dict) or not isinstance(l.get("cond"), dict):
+            continue
+        decls = l["init"].get("decls") or []
+        if len(decls) != 1 or decls[0].get("k") != "Var":
+            continue
+        did = decls[0]["did"]
+        cond = strip(l["cond"])
+        if cond.get("k") != "BinaryOperator" or cond.get("op") not in ("<", "<=", "!="):
+            continue
+        lhs = strip(cond["c"][0])
+        if lhs.get("k") != "DeclRefExpr" or lhs["ref"].get("did") != did:
+            continue
+        kinds = set()
+        for x in walk(l["body"] or {}):
+            k = x.get("k")
+            if k == "CXXOperatorCallExpr" and x.get("op") == "[]" and len(x.get("c", [])) >= 3:
+                idx = strip(x["c"][2])
+                if idx.get("k") == "DeclRefExpr" and idx["ref"].get("did") == did:
+                    base = strip(x["c"][1])
+                    if base.get("k") == "MemberExpr" and base["ref"].get("name") in SLOT_VECTORS:
+                        kinds.add(SLOT_VECTORS[base["ref"]["name"]])
+                    elif base.get("k") == "CXXMemberCallExpr" and base.get("callee", "").split("::")[-1] in SLOT_GETTERS:
+                        kinds.add(SLOT_GETTERS[base["callee"].split("::")[-1]])
+            elif k == "CXXMemberCallExpr" and x.get("callee", "").split("::")[-1] in SLOT_ELEMENT_GETTERS and x.get("callee", "").startswith("cell::"):
+                a = call_args(x)
+                if len(a) == 1 and strip(a[0]).get("k") == "DeclRefExpr" and strip(a[0])["ref"].get("did") == did:
+                    kinds.add(SLOT_ELEMENT_GETTERS[x["callee"].split("::")[-1]])
+        if not kinds:
+            continue
+        bound = expand(fn, cond["c"][1])
+        live = {LIVE_COUNTS[c["callee"]] for c in walk(bound) if c.get("k") == "CXXMemberCallExpr" and c.get("callee") in LIVE_COUNTS}
+        btxt = render(cond["c"][1])
+        hit = kinds & live
+        if not hit:
+            yield l, sorted(kinds)[0], btxt, "ok", "bound %s is not the live count of the vector it indexes" % render(bound)[:80]
+            continue
+        # a preceding rebase in the same function makes live count == size
+        rebased = False
+        for c in walk(fn["body"]):
+            if c.get("k") == "CXXMemberCallExpr" and c.get("callee", "").split("::")[-1] == "rebase" and fi.order[id(c)] < fi.order[id(l)]:
+                rebased = True
+        if rebased:
+            yield l, sorted(hit)[0], btxt, "ok", "live count used as bound, but the cell was compacted (rebase) before the loop"
+        else:
+            yield l, sorted(hit)[0], btxt, "bad", ("the loop visits the slots [0, %s) of the %s vector, but %s counts the used %s only (size() minus the free slots): after an edge collapse "
+                                                  "has freed a slot and before the next rebase, the used %s stored in the last slots are skipped" % (btxt, sorted(hit)[0], render(bound)[:60], sorted(hit)[0], sorted(hit)[0]))
+
+
+def check_slot_loops(rep, prog, rule, cls_pred, min_alive=8):
+    """Reports slot_loops() for the functions whose class satisfies cls_pred under `rule`. The lint must be alive: it has to
+    recognise at least min_alive index loops over slot vectors in the whole program (11 on the reference tree)."""
+    from .model import AnalysisBroken
+    total = 0
+    for fn in prog.repo_functions():
+        for l, kind, btxt, verdict, why in slot_loops(prog, fn):
+            total += 1
+            if not cls_pred(fn.get("cls") or "", fn):
+                continue
+            if verdict == "ok":
+                rep.ok(rule, prog, fn, l, "index loop over the %s slots bounded by %s: %s" % (kind, btxt, why))
+            else:
+                rep.violation(rule, prog, fn, l, "%s: slot loop bounded by the live count" % fn["qn"], "%s: %s" % (fn["qn"], why))
+    if total < min_alive:
+        raise AnalysisBroken("slot-loop lint recognises only %d index loops over node_lst_/face_lst_ in the whole program (expected >= %d)" % (total, min_alive))
